@@ -78,6 +78,8 @@ def run(ctx):
             res.case()
             return
         want = spec_expand(tabs, p.dict_aliases(), m)
+        if hist[0] % 4 == 1 and n <= 300:
+            res.remember({"text": text if len(text) < 3000 else None, "mother": m, "label": label}, lambda p=p, m=m: p.expand_decay_modes(m), impl)
         if len(impl) != n:
             res.violation("number of descriptors is not the number of decay paths", case, impl=len(impl), model=n, clause="count",
                           finding_key="F12" if len(impl) == 0 else None)
